@@ -29,8 +29,8 @@ def plan(tier: str) -> dict:
     for i in range(len(c04mod._h2_malformed(H2Peer()))):
         cases.append({"case": {"kind": "malformed", "h2": i}})
     return {
-        "runs": 10000 if tier == "quick" else 400000,
-        "budget": 100 if tier == "quick" else 900,
+        "runs": 20000 if tier == "quick" else 400000,
+        "budget": 150 if tier == "quick" else 900,
         "cases": cases,
         "chunk": 20,
         "rule": "Every tape builds one scenario (HTTP/1 keep-alive and HTTP/2 sessions from the C01-C03 generators with "
